@@ -149,6 +149,11 @@ class Ctx(object):
         self.transitions += 1
         if cond:
             return True
+        from . import shapes as _shapes
+        if _shapes.CURRENT_VIA:
+            if isinstance(case, dict) and 'via' not in case:
+                case = dict(case, via=_shapes.CURRENT_VIA)      # so that the replay rebuilds the object the same way
+            features = dict(features or {}, via=_shapes.CURRENT_VIA)
         rec = dict(obligation=obligation, case=case, features=features or {},
                    expected=_js(expected), observed=_js(observed), message=msg)
         kf = match_known(self.known, obligation, features)
@@ -280,9 +285,11 @@ def _worker(args):
     bind_repo()
     mod = importlib.import_module(modname)
     ctx = Ctx(mod.PROPERTY, tier, seed, known=_WORK.get('known'))
+    from . import shapes as _shapes
     for case in chunk:
         ctx.cases += 1
         ctx.sample(case)
+        _shapes.CURRENT_VIA = case.get('via') if isinstance(case, dict) else None
         try:
             with quiet():
                 mod.run_case(case, ctx)
@@ -295,6 +302,13 @@ def run_cases(mod, tier, seed, budget_s, nproc=None):
     """enumerate mod.gen_cases and run them on up to 16 processes; returns (ctx, info)"""
     t0 = time.time()
     cases = list(mod.gen_cases(tier, seed))
+    # "start from non-initial states too": every k-th shape case is run a second time on an object that reached the same
+    # definition through edits (shapes.build(via='history')) instead of being built fresh
+    k = getattr(mod, 'VIA_HISTORY_EVERY', 0)
+    if k:
+        extra = [dict(c, via='history' if (i // k) % 2 == 0 else 'history2') for i, c in enumerate(cases)
+                 if i % k == 0 and isinstance(c, dict) and isinstance(c.get('shape'), dict) and 'via' not in c]
+        cases.extend(extra)
     known = load_known(mod.PROPERTY)
     ctx = Ctx(mod.PROPERTY, tier, seed, known=known)
     nproc = nproc or int(os.environ.get('VERIF_PROCS', '0')) or min(16, os.cpu_count() or 1)
